@@ -1,6 +1,11 @@
 #!/bin/bash
-# Regenerates every Gen/*.v from /repo's working tree (fail closed).
+# Regenerates Gen/*.v from /repo's working tree (fail closed).  usage: regen.sh [kernels|jaxpr|fields|all]
 export PYTHONHASHSEED=0 PYTHONPATH=/repo/src:/verif/tools JAX_ENABLE_X64=1 JAX_PLATFORMS=cpu
 mkdir -p /verif/out
-/venv/bin/python /verif/tools/translate/gen_kernels.py 2>&1 | grep -v "^WARNING"
-exit ${PIPESTATUS[0]}
+what=${1:-all}
+rc=0
+run() { /venv/bin/python "$@" 2>&1 | grep -v "^WARNING"; r=${PIPESTATUS[0]}; if [ $r -ne 0 ]; then rc=$r; fi; }
+if [ "$what" = kernels ] || [ "$what" = all ]; then run /verif/tools/translate/gen_kernels.py; fi
+if [ "$what" = jaxpr ] || [ "$what" = all ]; then run /verif/tools/translate/gen_jaxpr.py; fi
+if [ "$what" = fields ] || [ "$what" = all ]; then if [ -f /verif/tools/translate/gen_fields.py ]; then run /verif/tools/translate/gen_fields.py; fi; fi
+exit $rc
